@@ -83,7 +83,6 @@ NA = {
  'C24': "functional semantics of each collection function over all inputs; not a shape property",
  'C27': "PBF value round trip and ordering depend on runtime values (the callback-error clause is decided under C28)",
  'C30': "shortest-path optimality is a numerical property of runtime values",
- 'C32': "GeoJSON numeric round trip depends on runtime values",
  'C33': "tile geometry encoding correctness is arithmetic over runtime values",
  'C34': "equivalence of two algorithms over all lines and tolerances needs execution or a solver, which is a different family",
  'C36': "equality of worlds across schedules is a relation between runtime values (the race-freedom part is decided under C35)",
